@@ -53,6 +53,10 @@ static const char *kAllocName = "std";
 struct Key {
   int v;
 };
+// a key of COARSER granularity than the comparator: class c is equivalent to every element e with (e / mod) / 2 == c
+struct KeyC {
+  int c;
+};
 template <class X>
 static int valOf(const X &x) {
   return static_cast<int>(x.v);
@@ -78,6 +82,18 @@ struct CmpBase {
   template <bool T = Transparent, typename std::enable_if<T, int>::type = 0>
   bool operator()(const Key &a, const E &b) const {
     return lt(a.v, valOf(b));
+  }
+  template <bool T = Transparent, typename std::enable_if<T, int>::type = 0>
+  bool operator()(const E &a, const KeyC &k) const {
+    ++R.cmpCalls;
+    int ca = (valOf(a) / mod) / 2;
+    return desc ? k.c < ca : ca < k.c;
+  }
+  template <bool T = Transparent, typename std::enable_if<T, int>::type = 0>
+  bool operator()(const KeyC &k, const E &b) const {
+    ++R.cmpCalls;
+    int cb = (valOf(b) / mod) / 2;
+    return desc ? cb < k.c : k.c < cb;
   }
   int cm() const { return (desc ? 1 : 0) + (mod == 2 ? 2 : 0); }
 };
@@ -569,6 +585,25 @@ static void run1(Slot<T> &s, const Label &lb, Result &r) {
     } else {
       r.unsupported();
     }
+  } else if (op == "lowerBoundC" || op == "upperBoundC" || op == "countC" || op == "containsC") {
+    if constexpr (CmpId<C>::transparent) {
+      KeyC key{lb.v};
+      if (op == "countC") {
+        guarded(lb, r, [&] { r.val(static_cast<long>(cv.count(key))); });
+      } else if (op == "containsC") {
+        guarded(lb, r, [&] { r.boolean(cv.contains(key)); });
+      } else if constexpr (!STraits<T>::small) {
+        if (op == "lowerBoundC") {
+          guarded(lb, r, [&] { r.it(posOf(cv, cv.lower_bound(key))); });
+        } else {
+          guarded(lb, r, [&] { r.it(posOf(cv, cv.upper_bound(key))); });
+        }
+      } else {
+        r.unsupported();
+      }
+    } else {
+      r.unsupported();
+    }
   } else if (op == "lowerBound" || op == "upperBound" || op == "equalRange") {
     if constexpr (!STraits<T>::small) {
       tmp.emplace(lb.v);
@@ -763,6 +798,7 @@ long g_h0 = 0, g_h1 = 0;
 static bool isConstOp(const std::string &op) {
   return op == "find" || op == "contains" || op == "count" || op == "lowerBound" || op == "upperBound" || op == "equalRange" ||
          op == "findK" || op == "containsK" || op == "countK" || op == "lowerBoundK" || op == "upperBoundK" || op == "iterate" ||
+         op == "lowerBoundC" || op == "upperBoundC" || op == "countC" || op == "containsC" ||
          op == "eq" || op == "ne" || op == "lt" || op == "le" || op == "gt" || op == "ge" || op == "ctorCopy" || op == "assignCopy";
 }
 // hash of the representation of the set(s) a const operation reads (the object bytes: a mutable cache shows here)
